@@ -41,7 +41,7 @@ NEW, RUNNABLE, BLOCKED, DONE = 'new', 'runnable', 'blocked', 'done'
 
 
 class TRec:
-    __slots__ = ('sim', 'idx', 'name', 'gate', 'state', 'pred', 'deadline', 'timed_out', 'thread', 'what', 'ident')
+    __slots__ = ('sim', 'idx', 'name', 'gate', 'state', 'pred', 'deadline', 'timed_out', 'thread', 'what', 'ident', 'last_run')
 
     def __init__(self, sim, idx, name):
         self.sim = sim
@@ -56,6 +56,7 @@ class TRec:
         self.thread = None
         self.what = ''
         self.ident = None
+        self.last_run = 0
 
     def __repr__(self):
         return f'<T{self.idx} {self.name} {self.state} {self.what}>'
@@ -108,6 +109,10 @@ class Sim:
         self.switches = 0
         self.branchings = 0
         self.flip_bits = ()
+        self.last_advance_step = 0
+        self.streak = 0
+        self.last_idle_step = 0
+        self.expiry_last = False
         self.nflips = 0
         self.flips_taken = 0
         self.active = False
@@ -210,17 +215,35 @@ class Sim:
             enabled = self._enabled()
             timed = [t for t in self.threads if t.state == BLOCKED and t.deadline is not None and t not in enabled]
             if self.steps > self.max_steps:
-                self._start_abort('steps', me)
+                # the step budget ran out. If virtual time has not moved for a very long stretch of steps (two orders of magnitude
+                # beyond what whole cases take), threads are spinning through scheduling points without ever waiting: a livelock
+                spinning = self.steps - self.last_idle_step >= LIVELOCK_STEPS
+                self._start_abort('livelock' if spinning else 'steps', me)
                 return
-            if not enabled:
-                if not timed:
-                    self._start_abort('deadlock', me)
-                    return
+            if enabled and timed and self.steps - self.last_advance_step >= SPIN_ADVANCE:
+                # somebody has been running through scheduling points for a long time without anybody waiting (busy polling):
+                # on a real machine time passes meanwhile, so the earliest timer fires
                 self._advance(timed)
                 if self.now > self.horizon:
                     self._start_abort('horizon', me)
                     return
                 continue
+            if not enabled:
+                if not timed:
+                    self._start_abort('deadlock', me)
+                    return
+                self.last_idle_step = self.steps
+                self._advance(timed)
+                if self.now > self.horizon:
+                    self._start_abort('horizon', me)
+                    return
+                continue
+            if self.expiry_last:
+                # schedule modifier: a thread whose timed wait (not a sleep) has expired gets the processor only after the others
+                # have run out of things to do at this instant - the order in which an expiry is acted upon with stale knowledge
+                fresh = [t for t in enabled if not (t.timed_out and t.what != 'sleep')]
+                if fresh:
+                    enabled = fresh
             stallable = []
             if timed and self.max_stall > 0:
                 d = min(t.deadline for t in timed) - self.now
@@ -228,6 +251,9 @@ class Sim:
                     stallable = timed
             if len(enabled) == 1 and not stallable:
                 choice = enabled[0]
+            elif self.streak >= SPIN_ADVANCE and any(t is not me for t in enabled):
+                # fairness: no real scheduler lets one thread keep the processor forever while others are ready
+                choice = min((t for t in enabled if t is not me), key=lambda t: t.last_run)
             else:
                 self.branchings += 1
                 choice = self.chooser(self, me, enabled, stallable)
@@ -242,6 +268,8 @@ class Sim:
             break
         nxt = choice
         self.trace.append(nxt.idx)
+        self.streak = self.streak + 1 if nxt is me else 0
+        nxt.last_run = self.steps
         if nxt.state == BLOCKED:
             nxt.timed_out = False
             nxt.state = RUNNABLE
@@ -258,6 +286,7 @@ class Sim:
         d = min(t.deadline for t in timed)
         if d > self.now:
             self.now = d
+        self.last_advance_step = self.steps
         for t in timed:
             if t.deadline <= self.now:
                 t.timed_out = True
@@ -266,7 +295,7 @@ class Sim:
                 t.deadline = None
 
     def _start_abort(self, verdict, me):
-        if self.draining and verdict in ('deadlock', 'horizon'):
+        if self.draining and verdict in ('deadlock', 'horizon', 'livelock'):
             verdict = 'leak:' + verdict
         self.verdict = verdict
         frames = sys._current_frames()
@@ -381,6 +410,9 @@ class Sim:
 
 # ---------------------------------------------------------------- hybrid primitives
 
+
+LIVELOCK_STEPS = 100_000
+SPIN_ADVANCE = 20_000
 
 CASE_STATS = {'flip_points': 0, 'flips_taken': 0}  # accumulated by run_sim, read and reset per case by the shard
 
